@@ -345,7 +345,7 @@ type stS3 struct {
 type stS4 struct {
 	am.Struct
 	scn.T1 // an embedded exported type is an ordinary field named after the type
-	Beta scn.T2
+	Beta   scn.T2
 }
 
 func obsC14(raw json.RawMessage) map[string]interface{} {
